@@ -98,10 +98,15 @@ func c02Profiles(tier string) []Profile {
 	conc = append(conc, pre.Profile(fmt.Sprintf("initial state: x{a,b}, y{a} flushed; every history of length <= %d over the same alphabet (deleting or overwriting persisted items, removing persisted collections, a maximum-length key, values of exactly 64 KiB and 128 KiB, then Flush / Reopen)", d-1)))
 	conc = append(conc, Profile{Name: "after-failed-flush", Exec: OnlyOracles(c07Exec(1, 1, false), "durable", "observe", "model"),
 		Budget: map[int]int{1: 0, 2: 0, 3: 1}, ShardLevel: 3,
-		Rule: "durability of a Flush that follows a failed one: the C07 driver (5 initial stores x every single operation x one failing file call at every index, retried or not) followed by Set, Flush, a copy of the file re-opened, Reopen; contents oracles only"})
+		Rule: "durability of a Flush that follows a failed one: the C07 driver (8 initial stores x every single operation x one failing file call at every index, retried or not) followed by Set, Flush, a copy of the file re-opened, Reopen; contents oracles only"})
 	framed := &SeqProfile{Name: "durable-framed", Keys: keys, Depth: d - 1, Init: initX, Mon: harness.Monitors{Durable: true}, CBMask: harness.CBFramed,
 		Letters: storeLetters(true, true)}
 	conc = append(conc, framed.Profile(fmt.Sprintf("the durable profile (histories of length <= %d) with a BeforeItemWrite / AfterItemRead pair installed that stores every value with a two-byte trailer (length, checksum) and verifies and strips it on read: the stored form differs in length from the in-memory form; every state a successful Flush reported must come back through the pair after re-opening a copy of the file", d-1)))
+	tt := 4400
+	if tier == "thorough" {
+		tt = 9000
+	}
+	conc = append(conc, tornTail(harness.Monitors{Durable: true}, tt).Profile(fmt.Sprintf("history [Set Flush, Set Flush] + an unflushed tail of every length 0..%d bytes after the last root record (what Collection.Write or a Flush that died leaves behind; every 8th ends in a byte-exact copy of the first root record), then Reopen: the store must be exactly the last successful Flush whatever follows it in the file (a backward scan in chunks of any size below the tail bound meets every alignment of the end marker); then Set, Flush, and a copy of the file re-opened", tt-1)))
 	vframed := &SeqProfile{Name: "durable-valframed", Keys: keys, Depth: d - 1, Init: initX, Mon: harness.Monitors{Durable: true}, CBMask: harness.CBValFramed,
 		Letters: storeLetters(true, true)}
 	conc = append(conc, vframed.Profile(fmt.Sprintf("the durable profile (histories of length <= %d) with the ItemValLength / ItemValWrite / ItemValRead triple installed: every value is stored with a two-byte trailer written by a separate file call (the stored length is what ItemValLength answers, not len(Val)); byte totals must count the stored lengths everywhere, and every state a successful Flush reported must come back through ItemValRead after re-opening a copy of the file", d-1)))
